@@ -342,7 +342,7 @@ func c17PartR(e *Env) {
 		if !res.Completed && nviol == 0 {
 			if res.Hung {
 				e.R.Count("r_trace_watchdog")
-				if !c17NeverBegunVerdict(e, lp, tr, res) {
+				if !c17StalledFileVerdict(e, lp, tr, res) && !c17NeverBegunVerdict(e, lp, tr, res) {
 					e.R.Inconcl(fmt.Sprintf("trace %d (resume timeout %d ms) did not complete: watchdog, never_begun=%v all_acked=%v quiet_ms=%d; files=%+v", tr.ID, tr.ResumeTimeoutMs, res.NeverBegun, res.AllAcked, res.QuietMs, outs))
 				}
 			} else {
